@@ -718,10 +718,16 @@ def compression_switch_during_write(run, thorough):
                 # it is in its read phase; had it just gone for the write
                 # lock - which this forced write holds - the premise of the
                 # case is not reached and nothing is judged)
-                held.append(pc.wait_for(
-                    lambda: conn.options.compression_enabled, 3.0))
+                held.append(processed.wait(3.0))
         conn.register_packet_listener(hold, serverbound.play.ChatPacket,
                                       outgoing=True, early=True)
+        # (the premise: the networking thread has *dealt with* the server's
+        # Set Compression while the write was held - seen by an ordinary
+        # listener, which runs after the built-in reaction)
+        processed = threading.Event()
+        from minecraft.networking.packets import clientbound as _cbp
+        conn.register_packet_listener(
+            lambda p: processed.set(), _cbp.play.SetCompressionPacket)
         w = {'live': 'compression-switch-during-forced-write', 'pv': pv,
              'threshold': threshold, 'message_len': len(msg)}
         try:
